@@ -75,6 +75,10 @@ def pair_case(draw):
         tgt['atmos'] = draw(st.sampled_from([0, 1, 2]))
         if tgt['base']['kind'] == 'rect' and draw(st.booleans()):
             tgt['convention'] = draw(st.sampled_from([0, 1, 2, 3]))
+    if draw(st.integers(0, 3)) == 0:
+        which = draw(st.sampled_from([src, tgt, src]))
+        which['layer_centres'] = [[draw(st.integers(0, 12)), draw(st.sampled_from([0.1, 0.25, 0.75, 0.9]))] for _ in range(draw(st.integers(1, 3)))]
+        if draw(st.booleans()): which['zero_centre'] = which['layer_centres'][0][0]
     if swap: src, tgt = tgt, src
     if jitter and draw(st.integers(0, 4)) > 0:
         # small offset of the target so that its centres are not equidistant from two source centres
@@ -87,7 +91,8 @@ def pair_case(draw):
                                draw(st.sampled_from([0.0, 0.0, -4.5, 13.0]))]]
     elif prior == 'rotate': prior = ['rotate', draw(st.sampled_from([90.0, 33.0, -120.0]))]
     return {'k': 'pair', 'mode': mode, 'src': src, 'tgt': tgt, 'nvar': draw(st.integers(1, 8)),
-            'explicit': draw(st.sampled_from([False, False, True])), 'prior': prior}
+            'explicit': draw(st.sampled_from([False, False, True])), 'prior': prior,
+            'incon_order': draw(st.sampled_from(['geometry', 'geometry', 'reversed', 'rotated']))}
 
 
 @st.composite
@@ -209,6 +214,8 @@ def run_pair(case, R):
     if case['mode'] == 'copy' and geo.extract(src) != geo.extract(tgt):
         identity = False; R.label('copy:rebuild-not-reproducible')
     sa, ta = src.atmosphere_type, tgt.atmosphere_type
+    for who in ('src', 'tgt'):
+        if case[who].get('layer_centres'): R.label('%s:layer-centres-off-mid-point' % who + (':one-exactly-zero' if case[who].get('zero_centre') is not None else ''))
     R.label('mode:' + case['mode'], 'atmos:%d->%d' % (sa, ta), 'src:' + case['src']['base']['kind'],
             'conv:%s->%s' % (src.convention, tgt.convention), 'nvar:%d' % case['nvar'])
     tblocks = enumerate_blocks(tgt)
@@ -316,7 +323,16 @@ def run_pair(case, R):
     # ---------------------------------------------------------------- initial conditions
     nvar = case['nvar']
     inc = t2incons.t2incon()
-    for i, n in enumerate(src_names):
+    # a t2incon is addressed by block name: below the atmosphere blocks (a single one is documented to come first) the
+    # states may be held in any order, e.g. bottom-up or as another program listed them
+    natm_src = src.num_atmosphere_blocks
+    order = list(range(len(src_names)))
+    io = case.get('incon_order', 'geometry')
+    if io == 'reversed': order = order[:natm_src] + order[natm_src:][::-1]
+    elif io == 'rotated': order = order[:natm_src] + order[natm_src:][len(order[natm_src:]) // 2:] + order[natm_src:][:len(order[natm_src:]) // 2]
+    R.label('incon:source-order-' + io)
+    for i in order:
+        n = src_names[i]
         v = [1.0e5 * (k + 1) + 13.0 * i + 0.25 * k for k in range(nvar)]
         b = t2incons.t2blockincon(v, n)
         if i % 3 == 1: b.porosity = 0.01 + 0.001 * (i % 50)
